@@ -68,6 +68,9 @@ def _cached(cached, ctype):
         return '', ''
     if ctype == 'str':
         return ' t="str"', '<v>%s</v>' % escape(str(cached))
+    if ctype == 'inlineStr':
+        # the cached text of a formula written as an inline string
+        return ' t="inlineStr"', '<is>%s</is>' % _t(str(cached))
     if ctype == 'b':
         return ' t="b"', '<v>%d</v>' % (1 if cached else 0)
     if ctype == 'e':
